@@ -259,6 +259,9 @@ func (r *Run) Finish() int {
 		}
 		cov["inconclusive_examples"] = r.inconclusive[:n]
 	}
+	if r.Assume == nil {
+		r.Assume = []string{}
+	}
 	ev := map[string]any{
 		"property_id": r.Prop, "tier": r.Tier, "seed": r.Seed, "level": r.Level,
 		"coverage": cov, "assumptions": r.Assume, "wall_s": wall, "violations": len(r.violations),
